@@ -165,11 +165,6 @@ pub fn parse_entries(data: &[u8]) -> Vec<(u64, u64, u64, u64)> {
 
 impl HybridRunner {
     pub fn new(mcfg: &MemCfg, hcfg: &HybridCfg) -> Result<Self, String> {
-        let (_, keys) = table_of(mcfg)?;
-        let rt = tokio::runtime::Builder::new_current_thread()
-            .enable_time()
-            .build()
-            .map_err(|e| format!("runtime: {e}"))?;
         let base = std::env::var("VERIF_SCRATCH").unwrap_or_else(|_| "/dev/shm".into());
         let dir = PathBuf::from(base).join(format!(
             "verif-hy-{}-{}",
@@ -177,6 +172,55 @@ impl HybridRunner {
             DIR_COUNTER.fetch_add(1, Ordering::Relaxed)
         ));
         let _ = std::fs::remove_dir_all(&dir);
+        Self::with_dir(mcfg, hcfg, dir)
+    }
+
+    pub fn keys(&self) -> Vec<u64> {
+        self.keys.clone()
+    }
+
+    pub fn dir(&self) -> &std::path::Path {
+        &self.dir
+    }
+
+    pub fn turn_pub(&self) {
+        self.turn()
+    }
+
+    pub fn may_contains(&self, k: u64) -> bool {
+        self.cache.as_ref().map(|c| c.storage().may_contains(&k)).unwrap_or(false)
+    }
+
+    /// `Store::load` (memory tier bypassed): version, 0 = miss / throttled, -1 = error, -2 = incomplete.
+    pub fn store_load(&mut self, k: u64) -> i64 {
+        let Some(cache) = self.cache.as_ref().cloned() else { return 0 };
+        let store = cache.storage().clone();
+        let r = self.drive(Box::pin(async move { store.load(&k).await }));
+        match r {
+            None => -2,
+            Some(Ok(foyer::Load::Entry { value, .. })) => Self::encode_res(&value, k),
+            Some(Ok(foyer::Load::Piece { piece, .. })) => Self::encode_res(piece.value(), k),
+            Some(Ok(_)) => 0,
+            Some(Err(_)) => -1,
+        }
+    }
+
+    /// `Store::wait`: returns once everything submitted so far has been flushed.
+    pub fn wait_flush(&mut self) -> Result<(), String> {
+        let Some(cache) = self.cache.as_ref().cloned() else { return Ok(()) };
+        let store = cache.storage().clone();
+        match self.drive(Box::pin(async move { store.wait().await })) {
+            Some(()) => Ok(()),
+            None => Err("wait() did not return".into()),
+        }
+    }
+
+    pub fn with_dir(mcfg: &MemCfg, hcfg: &HybridCfg, dir: PathBuf) -> Result<Self, String> {
+        let (_, keys) = table_of(mcfg)?;
+        let rt = tokio::runtime::Builder::new_current_thread()
+            .enable_time()
+            .build()
+            .map_err(|e| format!("runtime: {e}"))?;
         std::fs::create_dir_all(&dir).map_err(|e| format!("{dir:?}: {e}"))?;
         Ok(Self {
             mcfg: mcfg.clone(),
